@@ -123,12 +123,12 @@ theorem orphans_held (L : TxList) (h : LInv L) (t : Tx) :
   offered_iff h t
 
 /-- Non-vacuity: a list with a ready run 1,2 and an orphan 5 on base nonce 0 satisfies `LInv`. -/
-example : LInv ⟨⟨0, 100⟩, [⟨7, 1, 21, 5⟩, ⟨7, 2, 22, 5⟩, ⟨7, 5, 23, 5⟩], 2⟩ :=
+example : LInv ⟨⟨0, 100⟩, [⟨7, 1, 21, 5, false⟩, ⟨7, 2, 22, 5, false⟩, ⟨7, 5, 23, 5, false⟩], 2⟩ :=
   ⟨by decide, by decide, by decide⟩
 
 /-- Test on sample values: filtering that list with state nonce 1 keeps 2 (ready) and 5 (orphan). -/
-example : ((⟨⟨0, 100⟩, [⟨7, 1, 21, 5⟩, ⟨7, 2, 22, 5⟩, ⟨7, 5, 23, 5⟩], 2⟩ : TxList).filter ⟨1, 100⟩).2.2
-    = [⟨7, 1, 21, 5⟩] := by decide
+example : ((⟨⟨0, 100⟩, [⟨7, 1, 21, 5, false⟩, ⟨7, 2, 22, 5, false⟩, ⟨7, 5, 23, 5, false⟩], 2⟩ : TxList).filter ⟨1, 100⟩).2.2
+    = [⟨7, 1, 21, 5, false⟩] := by decide
 
 /-! ## The pool -/
 
@@ -138,9 +138,12 @@ theorem pinv_init : PInv Pool.init := Aergo.Pool.pinv_init
 /-- `put` preserves the pool invariant for every submitted transaction (accepted or refused). -/
 theorem pinv_put (P : Pool) (tx : Tx) (h : PInv P) : PInv (P.put tx).1 := Aergo.Pool.pinv_put h tx
 
-/-- `removeTx` preserves the pool invariant, provided the transaction handed in is the pooled one with
-that hash as far as its account is concerned (a hash identifies one transaction). -/
-theorem pinv_remove (P : Pool) (a id : Nat) (h : PInv P) (hacc : ∀ t ∈ P.cache, t.id = id → t.acc = a) :
+/-- `removeTx` preserves the pool invariant. For a pooled transaction filed under a verified address (name
+sender) nothing is assumed — the list key comes from the pooled transaction (repair ac6d27df). For the others
+the sender field `a` of the transaction handed in must be the pooled one's (same hash ⇒ same transaction:
+hash identity is a hypothesis, never an axiom). -/
+theorem pinv_remove (P : Pool) (a id : Nat) (h : PInv P)
+    (hacc : ∀ t ∈ P.cache, t.id = id → t.named = false → t.acc = a) :
     PInv (P.removeTx a id).1 := pinv_removeTx h a id hacc
 
 /-- Block notification (`removeOnBlockArrival`) preserves the pool invariant for every block id, parent,
@@ -185,35 +188,16 @@ theorem pinv_reachable (ops : List Op) : PInv (ops.foldl step Pool.init) := by
     | none =>
       simp only
       apply pinv_removeTx h
-      intro t ht hid
+      intro t ht hid _
       unfold Pool.exist at he
       have := List.find?_eq_none.1 he t ht
       simp [hid] at this
     | some t =>
       simp only
       apply pinv_removeTx h
-      intro t' ht' hid'
+      intro t' ht' hid' _
       unfold Pool.exist at he
-      have h1 := List.find?_some he
-      have h2 := List.mem_of_find?_eq_some he
-      simp only [beq_iff_eq] at h1
-      -- distinct hashes in the index: t' = t
-      have hids := h.ids
-      obtain ⟨i, hi, rfl⟩ := List.mem_iff_getElem.1 ht'
-      obtain ⟨j, hj, rfl⟩ := List.mem_iff_getElem.1 h2
-      have hpw := List.pairwise_iff_getElem.1 hids
-      have hij : i = j := by
-        apply Classical.byContradiction
-        intro hne
-        by_cases hlt : i < j
-        · have := hpw i j (by simpa using hi) (by simpa using hj) hlt
-          simp only [List.getElem_map] at this
-          exact this (by rw [hid', h1])
-        · have := hpw j i (by simpa using hj) (by simpa using hi) (by omega)
-          simp only [List.getElem_map] at this
-          exact this (by rw [hid', h1])
-      subst hij
-      rfl
+      rw [find_id_unique h.ids he ht' hid']
   | block n p c d σ => exact Aergo.Pool.pinv_blockArrival h n p c d σ
   | evict old => exact Aergo.Pool.pinv_evict h old
   | unconf a => exact Aergo.Pool.pinv_unconfirmed h a
@@ -377,8 +361,8 @@ accounts cannot be dropped for the pinned code (sample values, a test): pool bes
 holds nonce 4 on base 3; a notification for block 3 whose parent is block 2 (≠ best) that does not
 name account 7, with state nonce 5 for it, leaves the stale nonce 4 in the pool. -/
 example :
-    let P : Pool := ⟨[(7, ⟨⟨3, 100⟩, [⟨7, 4, 40, 1⟩], 1⟩)], [⟨7, 4, 40, 1⟩], 1, 0, 1, 1, fun _ => ⟨3, 100⟩⟩
-    lookup 7 (P.blockArrival 3 2 1 [] (fun _ => ⟨5, 100⟩)).lists = some ⟨⟨3, 100⟩, [⟨7, 4, 40, 1⟩], 1⟩ := by
+    let P : Pool := ⟨[(7, ⟨⟨3, 100⟩, [⟨7, 4, 40, 1, false⟩], 1⟩)], [⟨7, 4, 40, 1, false⟩], 1, 0, 1, 1, fun _ => ⟨3, 100⟩⟩
+    lookup 7 (P.blockArrival 3 2 1 [] (fun _ => ⟨5, 100⟩)).lists = some ⟨⟨3, 100⟩, [⟨7, 4, 40, 1, false⟩], 1⟩ := by
   intro P
   exact unnamed_accounts_untouched_on_reorg_path P 3 2 [] _ (by decide) (by decide) 7 (by decide)
 
@@ -447,11 +431,13 @@ theorem baseOK_remove (P : Pool) (a id : Nat) (h : PInv P) (hb : BaseOK P) : Bas
   unfold Pool.removeTx
   by_cases hc : cacheHas id P.cache = true
   · simp only [hc, Bool.not_true, Bool.false_eq_true, ↓reduceIte]
-    obtain ⟨hP1, hl, _⟩ := pinv_acquire h a
-    have hb1 := baseOK_acquire h hb a
+    generalize P.removeKey a id = key
+    unfold Pool.removeAt
+    obtain ⟨hP1, hl, _⟩ := pinv_acquire h key
+    have hb1 := baseOK_acquire h hb key
     intro b M hM
     have hM' := mem_release hM
-    show M.base = (Pool.release _ a).state b
+    show M.base = (Pool.release _ key).state b
     rw [(release_fields _ _).2.2.2.1]
     rcases mem_setL hM' with ⟨rfl, rfl⟩ | hM''
     · rw [(remove_spec (hP1.lists _ _ (lookup_mem hl)).1 id).2.1]
@@ -531,8 +517,8 @@ theorem noEmpty_evict (P : Pool) (old : List Nat) (hn : NoEmpty P) : NoEmpty (P.
 /-- Sample pool (a test of the definitions, also the non-vacuity witness for the `PInv` hypotheses):
 account 7 with ready nonce 1 and orphan nonce 3, account 9 with ready nonce 6 on base 5. -/
 def samplePool : Pool :=
-  ⟨[(7, ⟨⟨0, 100⟩, [⟨7, 1, 21, 5⟩, ⟨7, 3, 22, 5⟩], 1⟩), (9, ⟨⟨5, 50⟩, [⟨9, 6, 23, 1⟩], 1⟩)],
-   [⟨9, 6, 23, 1⟩, ⟨7, 3, 22, 5⟩, ⟨7, 1, 21, 5⟩], 3, 1, 1, 1, fun a => if a = 9 then ⟨5, 50⟩ else ⟨0, 100⟩⟩
+  ⟨[(7, ⟨⟨0, 100⟩, [⟨7, 1, 21, 5, false⟩, ⟨7, 3, 22, 5, false⟩], 1⟩), (9, ⟨⟨5, 50⟩, [⟨9, 6, 23, 1, false⟩], 1⟩)],
+   [⟨9, 6, 23, 1, false⟩, ⟨7, 3, 22, 5, false⟩, ⟨7, 1, 21, 5, false⟩], 3, 1, 1, 1, fun a => if a = 9 then ⟨5, 50⟩ else ⟨0, 100⟩⟩
 
 example : PInv samplePool := by
   refine ⟨by decide, ?_, by decide, by decide, by decide, by decide⟩
@@ -547,21 +533,30 @@ example : BaseOK samplePool := by
   simp only [samplePool, List.mem_cons, Prod.mk.injEq, List.not_mem_nil, or_false] at h
   rcases h with ⟨rfl, rfl⟩ | ⟨rfl, rfl⟩ <;> rfl
 
-/-- The guard of `pinv_remove` cannot be dropped — this is a genuine defect of the pinned code (finding
-`C13-removeTx-named-sender`): `removeTx` reads the account from the transaction handed in; for a transaction
-whose sender field is a *name* that is not the key its list is filed under (the verified address). Called with
-an account (100) other than the pooled transaction's list key (7), `removeTx` finds nothing in the (new, empty)
-list of 100 but still deletes the hash from the index and decrements `length`: the invariant breaks
-(reported total 2, held 3). -/
-example : ¬ PInv (samplePool.removeTx 100 21).1 := by
+/-- Regression witness for finding `C13-removeTx-named-sender` (repaired in /repo by ac6d27df; test on sample
+values): account 7's transaction 21 was sent under a name and filed under the verified address 7. `removeTx` is
+handed the bare transaction, whose sender field is the name (model account 100). With the repaired list key the
+transaction leaves its list, the index and the counter together. -/
+def namedPool : Pool :=
+  ⟨[(7, ⟨⟨0, 100⟩, [⟨7, 1, 21, 5, true⟩, ⟨7, 3, 22, 5, false⟩], 1⟩)],
+   [⟨7, 3, 22, 5, false⟩, ⟨7, 1, 21, 5, true⟩], 2, 1, 1, 1, fun _ => ⟨0, 100⟩⟩
+
+example : (namedPool.removeTx 100 21).1.lists = [(7, ⟨⟨0, 100⟩, [⟨7, 3, 22, 5, false⟩], 0⟩)] ∧
+    (namedPool.removeTx 100 21).1.cache = [⟨7, 3, 22, 5, false⟩] ∧
+    (namedPool.removeTx 100 21).1.length = 1 ∧ (namedPool.removeTx 100 21).1.orphan = 1 := by
+  refine ⟨?_, by decide, by decide, ?_⟩ <;>
+    simp [namedPool, Pool.removeTx, Pool.removeAt, Pool.removeKey, Pool.acquire, Pool.release, cacheHas, cacheDel,
+      lookup, setL, TxList.remove, removeFirst, updateReady, extendGo, contAt, nonceAt]
+
+/-- The pre-repair behaviour (list key = the sender field handed in, here 100) is `removeAt 100`: it finds nothing
+in the empty list of 100 but still drops the hash from the index and decrements `length` — the invariant breaks
+(reported total 1, held 2). This is what the harness saw on the real code before ac6d27df, and why
+`pinv_removeAt` needs the list key of the pooled transaction. -/
+example : ¬ PInv (namedPool.removeAt 100 21) := by
   intro h
   have := h.length
   revert this
   decide
-
-/-- … and the transaction is still offered to block producers although the index no longer knows it. -/
-example : (samplePool.removeTx 100 21).1.get.map (fun e => (e.1, e.2.map (·.id))) = [(7, [21]), (9, [23])] ∧
-    (samplePool.removeTx 100 21).1.exist 21 = none := by decide
 
 /-- Test on sample values: the fetch offers 7:[1] (3 is beyond a gap) and 9:[6]. -/
 example : samplePool.get.map (fun e => (e.1, e.2.map (·.nonce))) = [(7, [1]), (9, [6])] := by decide
